@@ -244,7 +244,12 @@ def toolchain_ok(cxx, std):
 
 def c17_cases(c, tier, seed):
     import itertools
-    yield from itertools.islice(gen_cases.enum_single(c.N, c.M, 'quick'), 0, None, 7 if tier == 'quick' else 2)
+    step = 7 if tier == 'quick' else 2
+    for i, case in enumerate(gen_cases.enum_single(c.N, c.M, 'quick')):
+        # every k-th case, and EVERY case (all start states, all fault indices) of the operations whose body has a
+        # standard-dependent preprocessor arm that is live at run time (shrink_to_size)
+        if i % step == 0 or case['cls'] in ('stf',):
+            yield case
     yield from itertools.islice(gen_cases.pair_cases(c.N, c.M, 'quick', (0, 0)), 0, None, 5 if tier == 'quick' else 2)
     yield from gen_cases.ctor_cases(c.N, c.M, 'quick')
     yield from gen_cases.random_histories(c.N, c.M, seed * 7919 + 13, 40 if tier == 'quick' else 400)
@@ -273,8 +278,11 @@ def c17_extra(tier, seed, lean):
         if ch in ('val', 'shape', 'exc', 'ledger', 'life'):
             for d in lst:
                 res['corr'].append(dict(d, channel=ch, why='a build under another standard/compiler disagrees with the model (and hence with the other builds) on channel ' + ch))
-    for prop in ('C17',):
-        res['w'] += core['w'].get(prop, [])
+    # ANY monitor of the real code that fires in one of these builds is a C17 violation with a concrete input: the unchanged
+    # code violates none of them under the baseline standard, so the build under this standard behaves differently
+    for prop, lst in core['w'].items():
+        for wv in lst:
+            res['w'].append(wv if prop == 'C17' else dict(wv, msg='C17 under %s the implementation violates a property it keeps under the other standards — %s' % (wv.get('config', '?'), wv['msg'])))
     for c in core['crashes']:
         res['w'].append(dict(msg='C17 the implementation %s in build %s' % ('called std::terminate' if c['kind'] == 'terminate' else 'crashed (' + c['kind'] + ')', c['config']),
                              op=c['case'][-1] if c['case'] else '-', config=c['config'], case=c['case'], impl=''))
